@@ -173,6 +173,10 @@ func (i *interpreter) spawn(fr *frame, pos token.Pos, fn value, args []value) {
 
 type threadPanic struct{ v interface{} }
 
+// A panic that ends a goroutine other than main kills the process: no recover() of
+// another thread can see it, so it travels through main's frames as an engine abort.
+func (threadPanic) engineAbort() string { return "goroutine panic" }
+
 // resume is executed by a thread when it receives the baton.
 func (i *interpreter) resume(t *thread) {
 	if t.id == 0 {
